@@ -103,6 +103,35 @@ def main():
         except Exception as e:  # noqa
             return {'exc': f'{type(e).__name__}: {str(e)[:200]}'}
 
+    def endurance(e):
+        """one long-lived process applying the rules to `n` DIFFERENT category pairs (a server, a long batch):
+        returns the first exception, or samples of (pair, result) for comparison with fresh evaluations"""
+        from depsim import gen
+        variant = e['variant']
+        mod = mods['ja' if variant == 'ja' else 'en']
+        pairs, _, _ = gen.seen_index(variant)
+        names = sorted({c for p in pairs for c in p} | {str(Category.parse(t)) for t in grammars.shipped('targets', variant)})
+        cats = [Category.parse(c) for c in names]
+        m = len(cats)
+        total = m * m
+        stride = 1000003
+        while total % stride == 0:
+            stride += 2
+        pos = e['start'] % total
+        samples = []
+        for i in range(min(e['n'], total)):
+            x, y = divmod(pos, m)
+            try:
+                res = mod.apply_binary_rules(cats[x], cats[y])
+            except Exception as exc:  # noqa
+                return {'exc': f'{type(exc).__name__}: {str(exc)[:200]}', 'at': i, 'x': names[x], 'y': names[y],
+                        'categories': m}
+            if i % e['sample_every'] == 0 or i >= e['n'] - 40:
+                samples.append([names[x], names[y],
+                                [[str(r.cat), r.op_string, r.op_symbol, bool(r.head_is_left)] for r in res]])
+            pos = (pos + stride) % total
+        return {'samples': samples, 'applied': min(e['n'], total), 'categories': m}
+
     sys.stdout.write(json.dumps({'ready': True, 'hashseed': os.environ.get('PYTHONHASHSEED'),
                                  'pair_order': list({'b0', 'b1'})}) + '\n')
     sys.stdout.flush()
@@ -113,7 +142,7 @@ def main():
         msg = json.loads(line)
         if msg.get('cmd') == 'quit':
             break
-        items = msg['items']
+        items = msg.get('items', [])
         # one request = one forked child of this pristine interpreter (it has imported the
         # grammar but never applied a rule): whatever state rule application leaks dies with
         # the child, so a run is a function of its own evaluation list only
@@ -122,6 +151,10 @@ def main():
         if pid == 0:
             code = 0
             try:
+                if 'endurance' in msg:
+                    sys.stdout.write(json.dumps({'endurance': endurance(msg['endurance'])}) + '\n')
+                    sys.stdout.flush()
+                    os._exit(0)
                 answers = [evaluate(items[i]) for i in msg['order']]
                 sys.stdout.write(json.dumps({'answers': answers}) + '\n')
                 sys.stdout.flush()
